@@ -1,5 +1,7 @@
 // C02/C05 direct-drive harness: DetailedPlacer from /repo driven pass by pass and move by move
 //   dopt gen rand SEED COUNT MODE      MODE bits: 2 = no turned, 16 = no polarity
+//                                      4 % of the cases: total wirelength >= 2^31 inside |v| < 2^22 (pads at x ~ +-3.9e6, 600..1300 nets),
+//                                      op list starting with reordering passes; half of them a designed circuit whose order is strictly optimal
 //   dopt run < cases
 // case: "DO <rows> <cells> <nets> nops (op)*"   ops (ints):
 //    0 c k cand*k          bestSwap(c, cands)            cells taken modulo the number of optimised cells
